@@ -459,6 +459,12 @@ type band struct{ up []Channel }
 
 func (b *band) N() int { return len(b.up) }
 
+func (b *band) Disable(i int) {
+	if i >= 0 && i < len(b.up) {
+		b.up[i].enabled = false
+	}
+}
+
 var shared = []Channel{{1, true}}
 
 func newSharedBand() (Band, error) { return &band{up: shared}, nil }
